@@ -89,7 +89,12 @@ func (s *scripted) FetchKeys(ctx context.Context, reqs map[pair]spec.Timestamp) 
 				}
 			}
 		}
-		switch t.Weighted([]int{6, 2, 1, 1}) {
+		switch t.Weighted([]int{6, 2, 1, 1, 1}) {
+		case 4: // the right key, but with neither valid_until_ts nor expired_ts
+			if ok {
+				s.w.r.Fault("fetcher_key_without_validity_period")
+				out[p] = entry{VerifyKey: honest.VerifyKey}
+			}
 		case 0:
 			if ok {
 				out[p] = honest
@@ -718,7 +723,12 @@ func body(r *sim.Run) {
 		for _, k := range o.Keys {
 			p := pair{ServerName: o.Name, KeyID: k.ID}
 			pub := spec.Base64Bytes(k.Pub)
-			switch t.Weighted([]int{4, 3, 2, 1}) {
+			switch t.Weighted([]int{4, 3, 2, 1, 1}) {
+			case 4: // a current key stored without any validity period
+				if k.Current() {
+					w.db.durable[p] = entry{VerifyKey: gmsl.VerifyKey{Key: pub}}
+					r.Fault("db_key_without_validity_period")
+				}
 			case 1: // what an honest fetch some time ago would have stored
 				if k.Current() {
 					w.db.durable[p] = entry{VerifyKey: gmsl.VerifyKey{Key: pub}, ValidUntilTS: spec.AsTimestamp(now.Add(o.ValidFor / 2))}
